@@ -305,7 +305,7 @@ def c01(W, replay=None):
         scen += random_histories(W, 600 if thorough else 60, faults=True)
         scen += parallel_family(W, 200 if thorough else 20)
         scen += [x for x in family(W, "C15", "quick") if "/body/" in x["id"]]        # odd token-endpoint bodies (C01 rule for them)
-        scen += [x for x in timeout_system_scenarios(W)] + decoy_family(W) + after_deny_family(W) + replica_family(W) + env_std(W)
+        scen += [x for x in timeout_system_scenarios(W)] + decoy_family(W) + after_deny_family(W) + replica_family(W) + env_std(W) + subsecond_family(W)
     return sys_pipeline("C01", W, scen, None, [
         "the ID-token expiry and signature ground truth comes from the simulated identity provider",
         "one check runs at a time between gates (store, token endpoint, key lookup); real parallelism inside a store call is C12's subject",
@@ -320,6 +320,13 @@ def parallel_family(W, n, flows=8):
         st = ("memory", "redis")[i % 2]
         steps = [{"op": "parallel", "d": flows, "ans": ans}, {"op": "parallel", "d": flows, "ans": ans}]
         res.append({"id": "parallel/%s/%d" % (st, i), "cfg": {"filters": [dict(F1, store=st)]}, "steps": steps, "tags": ["parallel"]})
+    # logins of two different filters (own client, callback, scopes, cookie prefix, provider) answered at the same time
+    for i in range(max(n // 2, 4)):
+        st = ("memory", "redis")[i % 2]
+        f1 = dict(F1, store=st, clientId="client-one", scopes=["profile"], prefix="one")
+        f2 = dict(F2, store=st if st == "memory" else "redis#1", clientId="client-two", scopes=["email", "groups"], idp="B", authzQuery="tenant=b&x=1")
+        steps = [{"op": "parallel", "d": flows, "ans": ans}, {"op": "parallel", "d": flows, "ans": ans}]
+        res.append({"id": "parallel2/%s/%d" % (st, i), "cfg": {"filters": [f1, f2]}, "steps": steps, "tags": ["parallel", "twoFilters"]})
     return res
 
 
@@ -507,6 +514,21 @@ def env_std(W, n=None):
     if not hasattr(W, key):
         setattr(W, key, family(W, "C05", "quick") + family(W, "C11", "quick") + family(W, "C03", "quick"))
     return envelope_family(W, getattr(W, key), n)
+
+
+def subsecond_family(W):
+    """Requests a fraction of a second after an expiry: a token that expires at T is expired at T + 0.35 s."""
+    res = []
+    for st in ("memory", "redis"):
+        for rt in (False, True):
+            for fwd in (False, True):
+                ans = {"mode": "honest", "rt": rt, "rotate": True, "expiresIn": 60, "idLife": 60}
+                steps = [browse("b1", "f1", 1, ans=ans), {"op": "tick", "d": 59}, app("b1", "f1", url=1, ans=ans), {"op": "tick", "d": 1},
+                         app("b1", "f1", url=1, ans=ans),                     # exactly at the expiry
+                         {"op": "tickms", "d": 350}, app("b1", "f1", url=1, ans=ans), app("b1", "f1", url=2, ans=ans)]
+                res.append({"id": "subsecond/%s/%s/%s" % (st, "rt" if rt else "nort", "fwd" if fwd else "nofwd"),
+                            "cfg": {"filters": [dict(F1, store=st, accessFwd=fwd)]}, "steps": steps, "tags": ["subsecond"]})
+    return res
 
 
 def hammer_family(W):
@@ -1419,6 +1441,32 @@ def c07(W, replay=None):
                                                        "regular expressions are covered for literal fragments with anchors and for an expression that does not compile"])
 
 
+def random_chain_cases(W, n):
+    """Long chain lists (up to 14 chains - deployments with one chain per tenant), mixed criteria on two headers, filter lists with an
+    OIDC filter whose provider cannot be discovered: judged by the same DispatchOps!Judge."""
+    rnd = random.Random(W.seed * 40503 + 17)
+    vals = [["a"], ["a", "b"], ["b"], ["a", "b", "c"], ["b", ",", "a"], [" ", "a"]]
+    res = []
+    for k in range(n):
+        chains = []
+        for _ in range(rnd.choice([1, 2, 3, 5, 8, 9, 11, 14])):
+            r = rnd.random()
+            if r < 0.15:
+                crit = {"crit": "none", "hdr": "x", "hdrLower": "x", "val": []}
+            else:
+                hdr = rnd.choice(["x-t", "x-t", "X-T", "x-other", "X-Other"])
+                crit = {"crit": rnd.choice(["eq", "eq", "prefix"]), "hdr": hdr, "hdrLower": hdr.lower(), "val": rnd.choice(vals)}
+            kinds = [rnd.choice(["allow", "deny", "allow"]) for _ in range(rnd.randint(0, 2))]
+            special = rnd.choice(["oidc", "broken", None, None])
+            if special:
+                kinds.insert(rnd.randint(0, len(kinds)), special)
+            if not kinds:
+                kinds = ["allow"]
+            chains.append(dict(crit, filters=kinds))
+        res.append({"id": "c08/random/%d" % k, "kind": "c08", "chains": chains, "allowUnmatched": rnd.random() < 0.5, "dupNames": rnd.random() < 0.2})
+    return res
+
+
 def c08(W, replay=None):
     W.build()
     cases = [] if replay else dispatch_gen(W, "C08")
@@ -1430,6 +1478,8 @@ def c08(W, replay=None):
             d = dict(c, id=c["id"] + "/dupnames", dupNames=True)
             dups.append(d)
     cases += sample(W, dups, 20000 if W.tier == "thorough" else 800)
+    if not replay:
+        cases += random_chain_cases(W, 4000 if W.tier == "thorough" else 300)
     return dispatch_pipeline("C08", W, cases, replay, ["an OIDC filter without cookie serves as the distinguishable denial; whether a filter was reached is observed through its session-store lookup",
                                                        "header names in requests are lower-case as Envoy delivers them"])
 
